@@ -143,3 +143,36 @@ func TestDebugLeak(t *testing.T) {
 	time.Sleep(200 * time.Millisecond)
 	t.Logf("mode %s: %d scenarios in %s, goroutines %d -> %d", mode, n, time.Since(t0), before, runtime.NumGoroutine())
 }
+
+// TestDebugFind regenerates the scenarios of one family and replays the one whose JSON starts with a prefix (development aid).
+func TestDebugFind(t *testing.T) {
+	prefix := os.Getenv("VERIF_DEBUG_PREFIX")
+	if prefix == "" {
+		t.Skip("development aid")
+	}
+	r := newRun(t, "C06", "exploration")
+	fam := os.Getenv("VERIF_DEBUG_FAMILY")
+	n, _ := strconv.Atoi(os.Getenv("VERIF_DEBUG"))
+	for i := 0; i < n; i++ {
+		rng := r.Cfg.caseRNG(fam, i)
+		sc := genPrioScenario(rng, prioGen{Vers: []string{"v1"}, Dividers: []string{"fair", "rate", "rate"}, Mode: "addrm"})
+		js := jsonString(sc)
+		if len(js) >= len(prefix) && js[:len(prefix)] == prefix {
+			t.Logf("found at %d: %s", i, js)
+			os.WriteFile("/tmp/c06w.json", []byte(`{"witness":{"scenario":`+js+`}}`), 0o644)
+			reps := 30
+			if v, err := strconv.Atoi(os.Getenv("VERIF_DEBUG_REPEAT")); err == nil {
+				reps = v
+			}
+			for k := 0; k < reps; k++ {
+				t0 := time.Now()
+				c := r.prioCase(t, sc)
+				if el := time.Since(t0); el > 200*time.Millisecond || len(c.res.Findings) > 0 || k < 2 {
+					t.Logf("run %d: %.1fms findings=%v aborted=%q term=%s", k, float64(el.Microseconds())/1000, c.res.Findings, c.res.Aborted, c.res.TermWay)
+				}
+			}
+			return
+		}
+	}
+	t.Log("not found")
+}
